@@ -426,6 +426,15 @@ class Ctx:
                           broken=broken, forbidden=bad, deps=deps,
                           errors=[{"file": f, "line": int(l), "msg": " ".join(m.split())[:300]} for f, l, m in errs][:10],
                           properties_output=pout[-3000:])
+        if self.tier == "thorough" and self.proof["ok"]:
+            # independent re-check of the compiled files and everything they depend on
+            with Lock(os.path.join(COQ, ".lock")):
+                rc, out = sh(["coqchk", "-silent", "-o", "-Q", ".", "H4", "H4.Properties_%s" % self.pid], cwd=COQ,
+                             timeout=3000)
+            self.proof["coqchk"] = {"rc": rc, "tail": out[-2500:]}
+            if rc != 0:
+                self.proof["ok"] = False
+                self.proof["broken"].append("coqchk H4.Properties_%s" % self.pid)
         n = count_obligations(deps)
         self.proof["obligations"] = n
         self.proof["discharged"] = n - count_obligations(broken) if not bad else 0
@@ -500,6 +509,8 @@ class Ctx:
         cov["print_assumptions"] = self.proof["assumptions"]
         cov["proof_files"] = self.proof.get("deps", [])
         cov["repo_tree_hash"] = self.hash
+        if "coqchk" in self.proof:
+            cov["coqchk"] = self.proof["coqchk"]
         if explanation:
             cov["explanation"] = explanation
         if not cov["samples"]:
